@@ -213,4 +213,36 @@ theorem pigeonhole (holds : Ver → Nat → Prop) (k : Nat) :
         obtain ⟨hm, hh⟩ := h3 sh hsh
         exact ⟨(List.mem_filter.mp hm).1, hh⟩
 
+/-- a belief stays "no share" under every event except the writer's own survey of that server or own write there -/
+theorem step_seen_none (cfg : Cfg) (st : St) (e : Ev) (w : Nat) (slot : Slot) (h : st.seen w slot = none)
+    (h1 : e ≠ .survey w slot.1) (h2 : e ≠ .write w slot) : (step cfg st e).seen w slot = none := by
+  cases e with
+  | survey w' srv =>
+    simp only [step]
+    split
+    · exact h
+    · by_cases hw : w = w'
+      · subst hw
+        have hs : ¬ slot.1 = srv := fun hs => h1 (by rw [hs])
+        simp [upd, hs, h]
+      · simp [upd, hw, h]
+  | write w' sl =>
+    simp only [step]
+    split
+    · by_cases hw : w = w'
+      · subst hw
+        have hs : ¬ slot = sl := fun hs => h2 (by rw [hs])
+        simp [upd, hs, h]
+      · simp [upd, hw, h]
+    · exact h
+
+theorem run_seen_none (cfg : Cfg) (st : St) (evs : List Ev) (w : Nat) (slot : Slot) (h : st.seen w slot = none)
+    (hev : ∀ e ∈ evs, e ≠ .survey w slot.1 ∧ e ≠ .write w slot) : (run cfg st evs).seen w slot = none := by
+  induction evs generalizing st with
+  | nil => exact h
+  | cons e evs ih =>
+    simp only [run, List.foldl_cons]
+    exact ih _ (step_seen_none cfg st e w slot h (hev e List.mem_cons_self).1 (hev e List.mem_cons_self).2)
+      (fun e' he' => hev e' (List.mem_cons_of_mem _ he'))
+
 end Tahoe.Mutable.Race
